@@ -10,24 +10,25 @@ open Inj Inj.Counter
 theorem C07_source_resets : Generated.Layout.counterResetOnInstall = true := by decide
 
 /-- verdict of one lifetime taken alone (counter starting at zero) -/
-def aloneVerdict (cp : Bool) (l : Nat × List Bool) : List CallOut × ExitOut :=
-  ((runCalls l.1 0 l.2).1, verifierDrop cp l.1 (runCalls l.1 0 l.2).2 false)
+def aloneVerdict (cp : Bool) (l : Nat × List Bool × Bool) : List CallOut × ExitOut :=
+  ((runCalls l.1 0 l.2.1).1, verifierDrop cp l.1 (runCalls l.1 0 l.2.1).2 l.2.2)
 
 /-- **Locality**: for every sequence of lifetimes evaluating the same `fake!(…, times: N)`
-    expression, with any calls in each, whatever the counter held before, every lifetime's call
-    outcomes and exit verdict are those it would have alone. -/
-theorem C07_local (cp : Bool) (hist : List (Nat × List Bool)) :
+    expression, with any calls in each, each ending normally or by unwinding from a panic in its
+    body, whatever the counter held before, every lifetime's call outcomes and exit verdict are
+    those it would have alone. -/
+theorem C07_local (cp : Bool) (hist : List (Nat × List Bool × Bool)) :
     ∀ cnt0, lifetimes Generated.Layout.counterResetOnInstall cp cnt0 hist = hist.map (aloneVerdict cp) := by
   rw [C07_source_resets]
   induction hist with
   | nil => intro _; rfl
   | cons l rest ih =>
     intro cnt0
-    obtain ⟨n, calls⟩ := l
+    obtain ⟨n, calls, unw⟩ := l
     simp only [lifetimes, lifetime, if_true, List.map, aloneVerdict, ih]
 
 /-- same set-up, same verdict: two lifetimes with the same (N, calls) get the same result -/
-theorem C07_repeatable (cp : Bool) (l : Nat × List Bool) (before after : List (Nat × List Bool)) (cnt0 : Nat) :
+theorem C07_repeatable (cp : Bool) (l : Nat × List Bool × Bool) (before after : List (Nat × List Bool × Bool)) (cnt0 : Nat) :
     (lifetimes Generated.Layout.counterResetOnInstall cp cnt0 (before ++ l :: after)).getD before.length ([], ExitOut.ok) =
       aloneVerdict cp l := by
   rw [C07_local]
@@ -36,7 +37,15 @@ theorem C07_repeatable (cp : Bool) (l : Nat × List Bool) (before after : List (
 /-- Without the reset the property is false (finding F3 on the pinned tree): second lifetime,
     first call. -/
 theorem C07_without_reset_false :
-    lifetimes false true 0 [(1, [true]), (1, [true])] ≠ [(1, [true]), (1, [true])].map (aloneVerdict true) := by
+    lifetimes false true 0 [(1, [true], false), (1, [true], false)] ≠
+      [(1, [true], false), (1, [true], false)].map (aloneVerdict true) := by
+  decide
+
+/-- the same after a lifetime that ended by unwinding: the silent verifier must not leave its
+    count behind either -/
+theorem C07_without_reset_false_after_unwind :
+    lifetimes false true 0 [(2, [true], true), (2, [true, true], false)] ≠
+      [(2, [true], true), (2, [true, true], false)].map (aloneVerdict true) := by
   decide
 
 end Inj.Props
@@ -45,3 +54,4 @@ end Inj.Props
 #print axioms Inj.Props.C07_local
 #print axioms Inj.Props.C07_repeatable
 #print axioms Inj.Props.C07_without_reset_false
+#print axioms Inj.Props.C07_without_reset_false_after_unwind
